@@ -18,7 +18,7 @@ from ..repo import AnalysisError, attr_chain, norm, walk_no_nested
 from ..cfg import CFG, node_calls
 
 LEVEL = "other"
-TECHNIQUE = "CFG ordering / pairing queries and a branch partition over abstract data lengths on readChunk"
+TECHNIQUE = "CFG ordering / pairing queries and a branch partition over abstract data lengths on readChunk; reachability of the normalisation from every read-ahead without a re-evaluated last-character test"
 CLAIM = ('Three necessary conditions of chunk-boundary independence in readChunk, over all paths: CR LF is '
          'normalised before lone CR; a withheld trailing character is removed from the data exactly when it is '
          'buffered and is cleared exactly when it is re-injected; every non-empty read evaluates the trailing- '
@@ -30,7 +30,7 @@ CLAIM = ('Three necessary conditions of chunk-boundary independence in readChunk
          'every read; the decoder is the one of the resolved encoding object; reset() re-initialises every '
          'attribute the reading methods write; unget() at a chunk start compensates the position counters '
          '(known finding: it does not).'
-         ' A one-character read that is a CR / lead surrogate is extended by the next read; errors queued by the chunk-level character scan carry no position (known finding); the pre-scan buffer is completed across short reads.')
+         ' A one-character read that is a CR / lead surrogate is extended by the next read; errors queued by the chunk-level character scan carry no position (known finding); the pre-scan buffer is completed across short reads. After every read-ahead that appends to the chunk the last-character test is evaluated again before the chunk is normalised.')
 NOT_DECIDED = ('everything else: line/column arithmetic inside _position, BufferedStream replay, decoder behaviour, '
                'equality of trees and error lists for all segmentations.')
 MODULES = ["_inputstream.py"]
